@@ -294,6 +294,7 @@ func c05SOps() []c05Op {
 				for i := range ps {
 					ds[i] = *ps[i]
 				}
+				c05NoteBatches(n, size)
 				return db.CreateInBatches(&ds, size).Error
 			}
 		}),
